@@ -12,9 +12,26 @@ Definition lev (s t : str) : Z :=
   if lev_returns_loop_var_cell then match t with [] => 0 | _ => lev_dp s t end else lev_dp s t.
 
 (* LeafNode.edits: cost of Match(self, node, ...) for two leaves *)
-Definition leaf_match_cost (x y : leaf) : Z :=
+Definition leaf_match_cost_raw (x y : leaf) : Z :=
   let d := lev (ltext x) (ltext y) in
   if leaf_zero_cost_adjusted && (d =? 0) && negb (py_eqb x y) then 1 else d.
+(* ... capped (if the source does so) by the cost of replacing one leaf with the other: max(total_size) + 1 *)
+Definition leaf_cap (x y : leaf) (c : Z) : Z :=
+  if leaf_match_cost_capped then Z.min c (Z.max (leaf_size x) (leaf_size y) + 1) else c.
+Definition leaf_match_cost (x y : leaf) : Z := leaf_cap x y (leaf_match_cost_raw x y).
+
+Lemma leaf_size_nonneg0 : forall x, 0 <= leaf_size x.
+Proof. intros x. unfold leaf_size, zlen. destruct (lk x); lia. Qed.
+(* the cap never raises a cost, keeps it non-negative, and turns no positive cost into 0 *)
+Lemma leaf_cap_spec : forall x y c, 0 <= c -> 0 <= leaf_cap x y c <= c /\ (leaf_cap x y c = 0 <-> c = 0).
+Proof.
+  intros x y c Hc. unfold leaf_cap. pose proof (leaf_size_nonneg0 x). pose proof (leaf_size_nonneg0 y).
+  destruct leaf_match_cost_capped; lia.
+Qed.
+Lemma leaf_cap_zero : forall x y, leaf_cap x y 0 = 0.
+Proof. intros x y. apply (leaf_cap_spec x y 0); lia. Qed.
+Lemma leaf_cap_le_replace : forall x y c, leaf_match_cost_capped = true -> leaf_cap x y c <= Z.max (leaf_size x) (leaf_size y) + 1.
+Proof. intros x y c H. unfold leaf_cap. rewrite H. lia. Qed.
 
 (* Python slice start l[start:] on a list of length len *)
 Definition py_slice_start (start len : Z) : Z :=
